@@ -1,7 +1,176 @@
-//! C20 (to be filled in)
+//! C20 — open descriptors stay bounded regardless of how many files are copied
+
 use super::*;
-pub fn run(_ctx: &Ctx) -> Report {
-    let mut r = Report::new("model_checking", "not implemented");
-    r.machinery_errors.push("C20 not implemented yet".into());
-    r
+use crate::explore::{explore, Judge};
+use crate::scen::Entry;
+use std::collections::BTreeMap;
+use std::sync::Arc;
+
+fn workers_of(scen: &Scenario) -> i64 {
+    let i = scen.args.iter().position(|a| a == "-w").unwrap();
+    scen.args[i + 1].parse().unwrap()
+}
+
+pub fn bound(w: i64) -> i64 {
+    // 3 standard descriptors + directory handles of the walk and scratch (slack 8) + two per open file pair,
+    // at most (pool queue 128 + w running + 1 being dispatched) pairs in flight
+    3 + 8 + 2 * (128 + w + 1)
+}
+
+pub fn judge(_w: &Worker, scen: &Scenario, ex: &Exec) -> Judgement {
+    let mut v = vec![];
+    let w = workers_of(scen);
+    if !exit0(ex) {
+        v.push(format!("copy of a plain tree ends with {} (descriptor limit {:?})", ex.res.outcome.short(), scen.nofile));
+    }
+    if ex.res.peak_fds > bound(w) {
+        v.push(format!("{} descriptors open at once with {} workers (bound {})", ex.res.peak_fds, w, bound(w)));
+    }
+    let mut j = simple_judge(v, ex, exit0(ex));
+    j.outcome_key = format!("{}|{:?}|peak={}", scen.name, ex.spec.policy, ex.res.peak_fds);
+    j
+}
+
+fn tree(n: usize) -> Vec<Entry> {
+    let mut t = vec![Entry::dir("src")];
+    for i in 0..n {
+        t.push(Entry::file(&format!("src/f{:05}", i), "x"));
+    }
+    t
+}
+
+fn permutations(items: &[Vec<String>]) -> Vec<Vec<String>> {
+    fn rec(rest: &mut Vec<Vec<String>>, cur: &mut Vec<String>, out: &mut Vec<Vec<String>>) {
+        if rest.is_empty() {
+            out.push(cur.clone());
+            return;
+        }
+        for i in 0..rest.len() {
+            let it = rest.remove(i);
+            let l = it.len();
+            cur.extend(it.clone());
+            rec(rest, cur, out);
+            cur.truncate(cur.len() - l);
+            rest.insert(i, it);
+        }
+    }
+    let mut out = vec![];
+    rec(&mut items.to_vec(), &mut vec![], &mut out);
+    out
+}
+
+/// every static priority order over the thread roles of a driver
+pub fn orders(driver: &str, w: i64) -> Vec<Vec<String>> {
+    let s = |x: &str| vec![x.to_string()];
+    if driver == "parfile" {
+        let workers: Vec<String> = (2..(2 + w)).map(|k| format!("0.1.{}", k)).collect();
+        permutations(&[s("0"), s("0.1"), s("0.1.1"), workers])
+    } else {
+        permutations(&[s("0"), s("0.1"), s("0.1.1"), s("0.1.2"), s("0.1.1.*")])
+    }
+}
+
+pub fn run(ctx: &Ctx) -> Report {
+    let mut rep = Report::new(
+        "model_checking",
+        "the schedule that maximises open files is an adversarial priority schedule (producer far ahead of consumers), so the space searched is every static pre-emptive priority order over the thread roles (main, copy thread, walker, dispatcher, worker class: 120 orders for parblock, 24 for parfile) x file counts x worker counts x both drivers, each executed by the real binary with descriptor accounting in the supervisor (open/dup/close tracked); plus runs under RLIMIT_NOFILE=1024 with more files than the limit; oracle: peak open descriptors <= 11 + 2*(128 + w + 1), no growth beyond n=280 (saturated pipeline) under the same order, exit 0 under the limit; non-trivial = exited 0, per distinct (scenario, order, trace)",
+    );
+    crate::explore::SNAP_BEFORE.store(false, std::sync::atomic::Ordering::Relaxed);
+    let j: Judge = &judge;
+    let q = ctx.quick();
+    let ns: Vec<usize> = if q { vec![1, 280, 560] } else { vec![1, 50, 140, 280, 560, 1000] };
+    let ws: Vec<i64> = if q { vec![2] } else { vec![1, 2, 4, 16] };
+    let mut jobs = vec![];
+    for d in drivers() {
+        for &w in &ws {
+            for &n in &ns {
+                let wstr = w.to_string();
+                let s = Arc::new(Scenario::new(&format!("fds-{}-w{}-n{}", d, w, n), tree(n), &["-r", "--driver", d, "-w", &wstr, "src", "dst"]));
+                for (oi, o) in orders(d, w).into_iter().enumerate() {
+                    if q && d == "parblock" && n == 1 && oi % 4 != 0 {
+                        continue;
+                    }
+                    let mut sp = RunSpec::base(Policy::Prio(o));
+                    sp.step_limit = 2_000_000;
+                    jobs.push((s.clone(), sp, 0usize));
+                }
+            }
+        }
+    }
+    let njobs = jobs.len();
+    let st = explore(&ctx.pool, jobs, j);
+    // growth with n under the same (driver, w, order)
+    let mut peaks: BTreeMap<(String, String), BTreeMap<usize, i64>> = BTreeMap::new();
+    for k in st.outcomes.keys() {
+        let parts: Vec<&str> = k.split('|').collect();
+        if parts.len() != 3 {
+            continue;
+        }
+        let name = parts[0];
+        let (pre, n) = match name.rsplit_once("-n") {
+            Some((a, b)) => (a.to_string(), b.parse::<usize>().unwrap_or(0)),
+            None => continue,
+        };
+        let peak: i64 = parts[2].trim_start_matches("peak=").parse().unwrap_or(0);
+        let e = peaks.entry((pre, parts[1].to_string())).or_default();
+        let cur = e.entry(n).or_insert(0);
+        *cur = (*cur).max(peak);
+    }
+    let mut worst: BTreeMap<String, i64> = BTreeMap::new();
+    for ((pre, order), m) in &peaks {
+        let w = worst.entry(pre.clone()).or_insert(0);
+        *w = (*w).max(*m.values().max().unwrap_or(&0));
+        // n >= 280 is more than twice what the queue plus the workers can hold: the pipeline is saturated
+        let big: Vec<(&usize, &i64)> = m.iter().filter(|(n, _)| **n >= 280).collect();
+        for pair in big.windows(2) {
+            if pair[1].1 > pair[0].1 {
+                rep.plain_violations.push((
+                    format!("peak open descriptors grow with the number of files: {} at n={} but {} at n={} ({} under {})", pair[0].1, pair[0].0, pair[1].1, pair[1].0, pre, order),
+                    serde_json::json!({"scenario": pre, "order": order, "peaks": m}),
+                ));
+            }
+        }
+    }
+    rep.extra.insert("worst_peak_per_configuration".into(), serde_json::json!(worst));
+    rep.part("all priority orders x file counts x workers", st, serde_json::json!({"file_counts": ns, "workers": ws, "jobs": njobs}));
+    // under the descriptor limit
+    let mut jobs = vec![];
+    for d in drivers() {
+        for (n, w) in if q { vec![(600usize, 2i64)] } else { vec![(600, 2), (5000, 4), (5000, 64)] } {
+            let wstr = w.to_string();
+            let mut s = Scenario::new(&format!("fds-limit1024-{}-w{}-n{}", d, w, n), tree(n), &["-r", "--driver", d, "-w", &wstr, "src", "dst"]);
+            s.nofile = Some(1024);
+            let s = Arc::new(s);
+            // producers first / consumers first / default policies
+            let os = orders(d, w);
+            let mut specs = vec![RunSpec::base(Policy::P0), RunSpec::base(Policy::P1)];
+            let dispatcher_first: Vec<String> = if d == "parblock" { vec!["0.1.2".into(), "0.1.1".into(), "0.1".into(), "0".into(), "0.1.1.*".into()] } else { os[0].clone() };
+            specs.push(RunSpec::base(Policy::Prio(dispatcher_first)));
+            specs.push(RunSpec::base(Policy::Prio(os.last().unwrap().clone())));
+            for mut sp in specs {
+                sp.step_limit = 5_000_000;
+                jobs.push((s.clone(), sp, 0usize));
+            }
+        }
+    }
+    let st = explore(&ctx.pool, jobs, j);
+    rep.part("more files than RLIMIT_NOFILE=1024 allows to hold open", st, serde_json::json!({}));
+    if !q {
+        // one deviation around the worst order at n=140
+        let mut jobs = vec![];
+        for d in drivers() {
+            let s = Arc::new(Scenario::new(&format!("fds-dev-{}-w2-n140", d), tree(140), &["-r", "--driver", d, "-w", "2", "src", "dst"]));
+            let o: Vec<String> = if d == "parblock" { vec!["0.1.2".into(), "0.1.1".into(), "0.1".into(), "0".into(), "0.1.1.*".into()] } else { vec!["0.1.1".into(), "0.1".into(), "0".into(), "0.1.2".into(), "0.1.3".into()] };
+            let mut sp = RunSpec::base(Policy::Prio(o));
+            sp.step_limit = 2_000_000;
+            jobs.push((s, sp, 1usize));
+        }
+        let st = explore(&ctx.pool, jobs, j);
+        rep.part("one deviation around the producer-first order, n=140", st, serde_json::json!({"d": 1}));
+    }
+    rep.assumptions = vec![
+        "exhaustive over static priority orders of the thread roles, not over all interleavings of a 300-file run; the pool queue length (128) is a constant in the source".into(),
+        "descriptor count = every descriptor the process holds (standard streams included), tracked from open/dup/close results".into(),
+    ];
+    rep
 }
